@@ -73,22 +73,22 @@ func Ask(ctx context.Context, to *PID, message any, timeout time.Duration) (resp
 	select {
 	case response = <-responseCh:
 		timers.Put(timer)
-		receiveContext.responseClosed.Store(true)
 		putResponseChannel(responseCh)
 		return
 	case <-ctx.Done():
 		err = errors.Join(ctx.Err(), gerrors.ErrRequestTimeout)
 		to.handleReceivedErrorWithMessage(noSender, message, err)
 		timers.Put(timer)
-		receiveContext.responseClosed.Store(true)
-		putResponseChannel(responseCh)
+		// The target may still reply later: the response channel is left to the
+		// garbage collector instead of being recycled (a late reply would land in
+		// another Ask), and the pooled context is not touched any more (it may
+		// already serve another message).
 		return nil, err
 	case <-timer.C:
 		err = gerrors.ErrRequestTimeout
 		to.handleReceivedErrorWithMessage(noSender, message, err)
 		timers.Put(timer)
-		receiveContext.responseClosed.Store(true)
-		putResponseChannel(responseCh)
+		// see above: neither the channel nor the context is reused after a timeout
 		return
 	}
 }
